@@ -2,8 +2,6 @@
 use zydeco_syntax::*;
 /*@macro lang/dynamics/src/impls.rs :: macro integer_arithmetic_result @*/
 
-/*@macro lang/dynamics/src/impls.rs :: macro float_arithmetic_result @*/
-
 /*@fn lang/dynamics/src/impls.rs :: fn integer_comparison
   plain
 @*/
